@@ -106,6 +106,31 @@ func c06Stream() *sStream {
 	return s
 }
 
+// c06TailStream: two PES PIDs; the last unit of the LOWER PID (0x100) has two packets, the second of which carries only a
+// 4-byte tail. When the first packet of that unit is lost the tail is all that is pending on 0x100 at end of stream,
+// while the higher PID 0x101 still has its last unit pending. kind 0: the tail is 00 00 01 0b (looks like the start of a
+// PES packet and fails to parse); kind 1: the tail is not a start code (parses to nothing).
+// Order: A1 B1 A2a B2 A2b.
+func c06TailStream(kind int) *sStream {
+	s := &sStream{}
+	a1 := mkPESPattern(0x100, 20, true, 1)
+	b1 := mkPESPattern(0x101, 20, true, 2)
+	a2 := mkPESPattern(0x100, 174, true, 3)
+	if kind == 0 {
+		copy(a2.pes.payload[170:], []byte{0, 0, 1, 0x0b})
+		a2.bytes = refEncodePES(a2.pes, uint16(refPESHeaderLen(a2.pes)-6+174))
+	}
+	b2 := mkPESPattern(0x101, 30, true, 4)
+	pa1 := packetize(a1, 3, 184, false)
+	pa2 := packetize(a2, 4, 184, false)
+	pb1 := packetize(b1, 9, 184, false)
+	pb2 := packetize(b2, 10, 184, false)
+	s.units = []*sUnit{a1, b1, a2, b2}
+	s.pkts = [][]byte{pa1[0], pb1[0], pa2[0], pb2[0], pa2[1]}
+	s.pktUnit = []int{0, 1, 2, 3, 2}
+	return s
+}
+
 // HarnessC06Dup: every single-packet duplication position (the duplicate follows the original immediately on its
 // PID; packets of the other PID may lie in between when gap == 1)
 func HarnessC06Dup(gap int) {
@@ -143,8 +168,11 @@ func HarnessC06Dup(gap int) {
 // HarnessC06Loss: every deletion of a run of 1..3 consecutive packets of one PID that is followed by a later
 // payload packet of that PID: what is still delivered is a subsequence of the clean deliveries (never a splice), the
 // other PID is unaffected, and only units that lost a packet or immediately precede the gap may be missing
-func HarnessC06Loss(run int) {
+func HarnessC06Loss(run, variant int) {
 	s := c06Stream()
+	if variant > 0 {
+		s = c06TailStream(variant - 1)
+	}
 	clean := drainAll(s.bytes())
 	i := vrange(0, len(s.pkts)-1)
 	lossPID := s.units[s.pktUnit[i]].pid
@@ -172,16 +200,19 @@ func HarnessC06Loss(run int) {
 	}
 	vassume(deleted == run && later)
 	got := drainAll(b)
-	// other PID unaffected
-	other := uint16(0x11)
-	if lossPID == 0x11 {
-		other = 0x100
-	}
-	co, gotO := perPID(clean, other), perPID(got, other)
-	vassert("C06.loss.other.count", len(co) == len(gotO))
-	if len(co) == len(gotO) {
-		for k := range co {
-			vassert("C06.loss.other.same", sameData(co[k], gotO[k]))
+	// other PIDs unaffected
+	seenPID := map[uint16]bool{lossPID: true}
+	for _, u := range s.units {
+		if seenPID[u.pid] {
+			continue
+		}
+		seenPID[u.pid] = true
+		co, gotO := perPID(clean, u.pid), perPID(got, u.pid)
+		vassert("C06.loss.other.count", len(co) == len(gotO))
+		if len(co) == len(gotO) {
+			for k := range co {
+				vassert("C06.loss.other.same", sameData(co[k], gotO[k]))
+			}
 		}
 	}
 	// faulted PID: subsequence of the clean deliveries
